@@ -410,8 +410,9 @@ class ModelicaMixin(OptimizationProblem):
     @property
     @cached
     def __nominals(self):
-        # Make the dict
-        nominal_dict = AliasDict(self.alias_relation)
+        # Make the dict. Nominals are magnitudes, so they do not change sign
+        # when accessed through a negated alias.
+        nominal_dict = AliasDict(self.alias_relation, signed_values=False)
 
         # Grab parameters and their values
         parameters = self.parameters(0)
